@@ -329,7 +329,18 @@ func Close(fd int) error {
 	return syscall.Close(fd)
 }
 
-func Dup(fd int) (int, error) { return syscall.Dup(fd) }
+// DupHook, when set, is asked before every dup(2): a non-zero errno makes the call fail with it
+// (descriptor table full) instead of duplicating.
+var DupHook func(fd int) syscall.Errno
+
+func Dup(fd int) (int, error) {
+	if h := DupHook; h != nil {
+		if e := h(fd); e != 0 {
+			return -1, e
+		}
+	}
+	return syscall.Dup(fd)
+}
 
 func Connect(fd int, sa syscall.Sockaddr) error {
 	if h := ConnectHook; h != nil {
